@@ -63,6 +63,7 @@ class Loops:
         self.axioms = {}         # (label, ordinal) -> fn(ex, env, i) -> [formula]  (ghost definitions, assumed only)
         self.post_bind_axioms = {}   # same, evaluated after the loop target is bound (type invariants of host data)
         self.var_invs = {}
+        self.shape_checks = {}       # (label, ordinal) -> fn(loop statement) -> bool: the loop the sidecar invariant was written for
 
     _idiom_key = None
 
@@ -421,6 +422,7 @@ class Loops:
         if self.accumulator_idiom(ex, st, env):
             return
         key = self.loop_key(ex, st)
+        self.check_shape(ex, key, st)
         desc = self.describe(ex, ex.eval(st.iter, env))
         if desc.kind == 'seq' and not has_calls(st.body):
             n = L.simp(ex.heap.llen(desc.ref))
@@ -500,8 +502,16 @@ class Loops:
                     out.append((n, pname, props, fn))
         self.var_invs[key] = out
 
+    def check_shape(self, ex, key, st):
+        chk = self.shape_checks.get(key)
+        if chk is not None and self._idiom_key is None and not chk(st):
+            # a loop with a hand-written (sidecar) invariant was rewritten into another kind of loop: the invariant
+            # says nothing about the new one.  That is "needs a new invariant" - undecided, never a violation
+            raise Unsupported('the loop annotated in the sidecar contract of %s was rewritten: it needs a new invariant' % key[0].split(':')[-1])
+
     def while_loop(self, ex, st, env):
         key = self.loop_key(ex, st)
+        self.check_shape(ex, key, st)
         names = assigned_names(st.body)
         self.var_candidates(ex, key, env, names)
         self.cur_mod_names[key] = [n for n in names if env.has(n)]
